@@ -62,14 +62,15 @@ def mutate(rng, t):
 def gen_input(rng):
     k = rng.random()
     if k < 0.1: return bytes(rng.randrange(256) for _ in range(rng.choice([0, 1, 2, 5, 20, 60])))
-    if k < 0.25: return bytes(rng.choice(ALPHA) for _ in range(rng.choice([1, 3, 10, 30, 80])))
+    if k < 0.2: return progs.fuzz_symtab(rng, rng.random() < 0.3)
+    if k < 0.3: return bytes(rng.choice(ALPHA) for _ in range(rng.choice([1, 3, 10, 30, 80])))
     if k < 0.5: return mutate(rng, rng.choice(ASPIF))
     if k < 0.75: return mutate(rng, rng.choice(SMODELS))
     if k < 0.95: return mutate(rng, valid_texts(rng))
     return rng.choice(ASPIF + SMODELS) if rng.random() < 0.5 else valid_texts(rng)
 
 def corpus(ctx):
-    return [{"text": t.hex()} for t in ASPIF + SMODELS + [b"", b"\x00", b"a", b"asp", b"asp 1 0 0\n4 4294967295 x", b"1 0 1 1 1 1 0\n", b"3 _heuristic(a,true,-2147483648)\n",
+    return [{"text": t.hex()} for t in ASPIF + SMODELS + [b"", b"\x00", b"a", b"asp", b"asp 1 0 0\n4 4294967295 x", b"1 0 1 1 1 1 0\n", b"3 _heuristic(a,true,-2147483648)\n", b"1 2 0 0\n0\n1 pppppppppp\",b)\n2 _edge(\"a\\\n0\nB+\n0\nB-\n0\n1\n",
             b"asp 1 0 0\n1 0 1 1 1 2147483647 1 2 2147483647\n0\n", b"x_2147483648.", b"#minimize{a=2147483648}.", b"asp 1 0 0\n4 99999999999999999999 a 0\n0\n"]]
 
 def generate(ctx):
